@@ -298,7 +298,21 @@ def _trunc(P, cls):
     return cls(measure=m, lower_limit=P["w1"].reshape(1, 1) - 1.0, upper_limit=P["w1"].reshape(1, 1) + 1.5)
 
 
+def _rbf0(P):
+    # the first kernel centre exactly at the origin (a symmetric grid of centres contains 0): norms / square roots of the
+    # centre are not differentiable there
+    return ac.LRBFGaussianConditional(M=R1(jnp.concatenate([P["M1"], P["KC"].T[:, :2] * 0.5], axis=1)), b=R1(P["b1"]), mu=P["KC"] * jnp.array([[0.0], [0.5]]), length_scale=jnp.exp(P["KDm"] * 0.3), Sigma=R1(spd(P["B2"])))
+
+
+def _sem0(P):
+    # zero offsets and one zero weight vector
+    return ac.LSEMGaussianConditional(M=R1(jnp.concatenate([P["M1"], P["KC"].T[:, :2] * 0.5], axis=1)), b=R1(P["b1"]), W=jnp.concatenate([P["kC"][:, None] * 0.0, P["KC"] * jnp.array([[0.0], [0.7]])], axis=1), Sigma=R1(spd(P["B2"])))
+
+
 TEMPLATES = {}
+TEMPLATES["LRBF.origin_centre.marginal"] = (lambda P: _rbf0(P).affine_marginal_transformation(_prior(P)).evaluate_ln(P["y"]).ravel(), True, 1e-6)
+TEMPLATES["LRBF.origin_centre.condition_on_x"] = (lambda P: _rbf0(P).condition_on_x(P["x"]).evaluate_ln(P["y"]).ravel(), True, 1e-6)
+TEMPLATES["LSEM.zero_offsets.marginal"] = (lambda P: _sem0(P).affine_marginal_transformation(_prior(P)).evaluate_ln(P["y"]).ravel(), True, 1e-6)
 for nm, mk in (("LRBF", _rbf), ("LSEM", _sem)):
     TEMPLATES[nm + ".condition_on_x"] = (lambda P, mk=mk: mk(P).condition_on_x(P["x"]).evaluate_ln(P["y"]).ravel(), True, 1e-6)
     TEMPLATES[nm + ".marginal"] = (lambda P, mk=mk: mk(P).affine_marginal_transformation(_prior(P)).evaluate_ln(P["y"]).ravel(), True, 1e-6)
